@@ -260,7 +260,8 @@ def _build(files, tmp):
     """The same file set in the in-memory, zip, VPK and directory backends."""
     from srctools.filesys import VirtualFileSystem, ZipFileSystem, VPKFileSystem, RawFileSystem
     from srctools.vpk import VPK
-    virt = VirtualFileSystem({n: d for n, d in files.items()})
+    # every other name is handed to the in-memory filesystem spelled with backslashes (both slash kinds are one name)
+    virt = VirtualFileSystem({(n.replace('/', '\\') if i % 2 else n): d for i, (n, d) in enumerate(files.items())})
     zpath = os.path.join(tmp, 'f.zip')
     with zipfile.ZipFile(zpath, 'w') as z:
         for n, d in files.items():
@@ -378,6 +379,17 @@ def _diff_case(names):
             # (backslash spellings are host dependent for a real directory: not required here)
             if n not in raw or _read(raw, n) != d:
                 return f'directory backend: {n!r} not found / other bytes'
+        # a folder is not a file: its name does not "exist" in any backend (unless a file has that very name)
+        for folder in {f.rstrip('/\\') for f in _folders(files) if f.strip('/\\')}:
+            if _spec_norm(folder) in spec:
+                continue
+            for bname, fs in list(backends.items()) + [('directory', raw)]:
+                if bname == 'directory' and not os.path.isdir(os.path.join(raw.path, folder.replace('\\', '/'))):
+                    continue
+                if not any(k.startswith(_spec_norm(folder) + '/') for k in spec):
+                    continue        # (a truncated folder name: nothing is inside it)
+                if folder in fs:
+                    return f'{bname}: the folder name {folder!r} is reported to exist as a file'
         for folder in {f for f in _folders(raw_files) if (f == f.lower() or f in ('',)) and '\\' not in f}:
             if folder and not os.path.isdir(os.path.join(raw.path, folder.replace('\\', '/'))):
                 continue
